@@ -38,7 +38,7 @@ void check_C10(Src &s, Ctx &ctx) {
     const int cls = cls_of[mix(16)];
     static const int fam11[8] = {F_GLOBAL, F_LOCALP, F_WAVE, F_SEQ, F_LOCALP, F_SEQ, F_WAVE, F_LOCALP};
     const int fsel = mix(8), msel = mix(3), rsel = mix(16), osel = mix(14);
-    SpecOpts so; so.max_dims = 3; so.min_outs = 1; so.max_outs = 2; so.transforms = false; so.conformal = false; so.unbounded = false; so.cap = cfg().tier ? 400 : 200;
+    SpecOpts so; so.max_dims = 3; so.min_outs = 1; so.max_outs = 2; so.transforms = false; so.conformal = false; so.unbounded = false; so.cap = cfg().tier ? 300 : 200;
     so.fam_mask = 1u << (cls == CL_11 ? fam11[fsel] : (cls == CL_FOURIER ? F_FOURIER : F_GLOBAL));
     so.min_depth = mix(8) == 7 ? 0 : 1;
     GridSpec sp = decode_spec(s, so);
